@@ -24,6 +24,7 @@ type c13Session struct {
 	Concurrent bool      `json:"concurrent"` // tunnel requests pipelined in one write
 	GoLDAP     bool      `json:"goldap"`     // drive the upgrade with go-ldap's StartTLS instead of the raw client
 	Pre        int       `json:"pre"`        // plaintext requests answered before the StartTLS
+	PauseMs    int       `json:"pause_ms"`   // idle time inside the tunnel before the requests are sent
 }
 
 type c13Case struct {
@@ -111,7 +112,7 @@ func c13Exec(c c13Case, st *lab.Stats) *lab.Fail {
 	var wg sync.WaitGroup
 	for si, s := range c.Sessions {
 		nt := s.D2 > 0 && len(s.Reqs) >= 2 && s.Concurrent
-		st.Case(nt, lab.JSONKey(s), fmt.Sprintf("d2=%d", s.D2), fmt.Sprintf("d1=%d", s.D1), fmt.Sprintf("goldap=%v", s.GoLDAP), fmt.Sprintf("concurrent=%v", s.Concurrent), fmt.Sprintf("sessions<=%d", bucket(len(c.Sessions))))
+		st.Case(nt, lab.JSONKey(s), fmt.Sprintf("d2=%d", s.D2), fmt.Sprintf("d1=%d", s.D1), fmt.Sprintf("pause=%d", s.PauseMs), fmt.Sprintf("goldap=%v", s.GoLDAP), fmt.Sprintf("concurrent=%v", s.Concurrent), fmt.Sprintf("sessions<=%d", bucket(len(c.Sessions))))
 		wg.Add(1)
 		go func(si int, s c13Session) {
 			defer wg.Done()
@@ -187,7 +188,15 @@ func c13Session1(si int, s c13Session, srv *lab.Server, pki *lab.PKI, rc *record
 	if err := cl.StartTLS(pki.ClientTLS(false), startTLSReq.MsgID); err != nil {
 		return lab.Failf("client-handshake-failed", "%s: %v", desc, err)
 	}
-	// requests inside the tunnel
+	// requests inside the tunnel (optionally after the session has been idle for a while)
+	if s.PauseMs > 0 {
+		q := simpleReq("bind", base+450000)
+		_ = cl.Send(q.Bytes())
+		if m, err := cl.Next(15 * time.Second); err != nil || m.ID != q.MsgID {
+			return lab.Failf("tunnel-request-failed", "%s: first request inside the tunnel unanswered: %v", desc, err)
+		}
+		time.Sleep(time.Duration(s.PauseMs) * time.Millisecond)
+	}
 	want := map[int64]ReqSpec{}
 	var bufs [][]byte
 	for i, r := range s.Reqs {
@@ -308,7 +317,7 @@ func TestC13(t *testing.T) {
 	delays := []int{0, 0, 1, 5, 20, 50}
 	lab.Prop[c13Case]{
 		ID: "C13", Part: "starttls",
-		Rule: "rapid: 1..16 parallel sessions through a recording wiretap proxy; the StartTLS handler sleeps d1, writes success, sleeps d2 (0..50 ms, the client's ClientHello is already on the wire), calls Request.StartTLS, sleeps d3; then 1..40 generated requests of all operations (controls, binary values) inside the tunnel, sequentially or pipelined in one write; conforming clients = raw independent client and go-ldap StartTLS; oracle = handshake succeeds for every timing, every tunnel request is decoded (field-by-field as C01) and answered once, and every captured byte after the StartTLS exchange is a TLS record in both directions; non-trivial = d2 > 0 and >= 2 concurrent requests after the upgrade; distinct by hash of the session",
+		Rule: "rapid: 1..16 parallel sessions through a recording wiretap proxy; the StartTLS handler sleeps d1, writes success, sleeps d2 (0..50 ms, occasionally up to 600 ms; the client's ClientHello is already on the wire), calls Request.StartTLS, sleeps d3; the session may then stay idle for 0.3..2.5 s; then 1..40 generated requests of all operations (controls, binary values) inside the tunnel, sequentially or pipelined in one write; conforming clients = raw independent client and go-ldap StartTLS; oracle = handshake succeeds for every timing, every tunnel request is decoded (field-by-field as C01) and answered once, and every captured byte after the StartTLS exchange is a TLS record in both directions; non-trivial = d2 > 0 and >= 2 concurrent requests after the upgrade; distinct by hash of the session",
 		Gen: func(t *rapid.T) c13Case {
 			var c c13Case
 			n := rapid.IntRange(1, 6).Draw(t, "nsessions")
@@ -316,11 +325,18 @@ func TestC13(t *testing.T) {
 				n = 16
 			}
 			for i := 0; i < n; i++ {
+				dl := delays
+				if rapid.IntRange(0, 7).Draw(t, "slowhandler") == 0 {
+					dl = []int{0, 120, 300, 600} // a slow handler: "whatever the handler's timing"
+				}
 				s := c13Session{
-					D1: rapid.SampledFrom(delays).Draw(t, "d1"), D2: rapid.SampledFrom(delays).Draw(t, "d2"), D3: rapid.SampledFrom(delays).Draw(t, "d3"),
+					D1: rapid.SampledFrom(dl).Draw(t, "d1"), D2: rapid.SampledFrom(dl).Draw(t, "d2"), D3: rapid.SampledFrom(dl).Draw(t, "d3"),
 					Concurrent: rapid.Bool().Draw(t, "concurrent"),
 					GoLDAP:     i == 0 && rapid.IntRange(0, 3).Draw(t, "goldap") == 0,
 					Pre:        rapid.IntRange(0, 2).Draw(t, "pre"),
+				}
+				if rapid.IntRange(0, 9).Draw(t, "pause") == 0 {
+					s.PauseMs = rapid.SampledFrom([]int{300, 1200, 2500}).Draw(t, "pausems")
 				}
 				k := rapid.IntRange(1, 8).Draw(t, "nreqs")
 				if rapid.IntRange(0, 7).Draw(t, "long") == 0 {
